@@ -82,6 +82,10 @@ func (c *compiler) makeConstant(i interface{}) []byte {
 	switch reflect.TypeOf(i).Kind() {
 	case reflect.Slice, reflect.Map:
 		hashable = false
+	case reflect.Struct, reflect.Array, reflect.Func:
+		// A struct or array may hold slices, maps or functions, directly
+		// or inside an interface value: such a constant is not a map key.
+		hashable = isHashable(i)
 	}
 
 	if hashable {
@@ -100,6 +104,16 @@ func (c *compiler) makeConstant(i interface{}) []byte {
 		c.index[i] = p
 	}
 	return encode(p)
+}
+
+func isHashable(i interface{}) (ok bool) {
+	defer func() {
+		if r := recover(); r != nil {
+			ok = false
+		}
+	}()
+	_ = map[interface{}]struct{}{i: {}}
+	return true
 }
 
 func (c *compiler) placeholder() []byte {
